@@ -41,7 +41,7 @@ def gen_case(seed, n):
     h["pause"] = [0.01, r.choice([0.02, 0.05])]
     h["crlf_prob"] = r.choice([0.0, 0.15])
     h["join_prob"] = r.choice([0.0, 0.4])
-    h["bogus_prob"] = r.choice([0.0, 0.06])
+    h["bogus_prob"] = r.choice([0.0, 0.08, 0.15])
     h["dup_prob"] = r.choice([0.0, 0.06])
     h["reorder"] = c["concurrency"] > 0 and r.random() < 0.85
     h["avoid_id_cuts"] = r.random() < 0.4    # these instances exercise everything except the channel-id split
